@@ -18,7 +18,22 @@ def main():
     except ValueError:
         seed = 0
     mod = importlib.import_module("harness.props." + a.prop.lower())
-    sys.exit(core.run_prop(mod.PROP, tier, seed, a.replay))
+    try:
+        rc = core.run_prop(mod.PROP, tier, seed, a.replay)
+    except Exception:  # noqa - the machinery itself failed: the property is not shown to hold on this run
+        import json
+        import traceback
+        tb = traceback.format_exc()
+        d = os.path.join(core.VERIF, "replays", mod.PROP.id)
+        os.makedirs(d, exist_ok=True)
+        path = os.path.join(d, "machinery-%d.json" % os.getpid())
+        with open(path, "w") as f:
+            json.dump({"property": mod.PROP.id, "status": "no-failing-input-found", "tier": tier, "seed": seed, "input": None,
+                       "unchecked": "the check could not be completed: " + tb[-1500:]}, f, indent=1)
+        print("VIOLATION property=%s replay=%s no-failing-input-found" % (mod.PROP.id, os.path.relpath(path, core.VERIF)))
+        sys.stdout.flush()
+        rc = 1
+    sys.exit(rc)
 
 
 if __name__ == "__main__":
